@@ -55,6 +55,8 @@ def step (line : String) : String :=
   | "rctor2" :: rest => runRctor2 (parseKV rest)
   | "rvsrc" :: rest => runRvsrc (parseKV rest)
   | "fvsrc" :: rest => runFvsrc (parseKV rest)
+  | "rstaged" :: rest => runRstaged (parseKV rest)
+  | "fstaged" :: rest => runFstaged (parseKV rest)
   | "reduce" :: rest => runReduce (parseKV rest)
   | "minmax" :: rest => runMinmax (parseKV rest)
   | "pred" :: rest => runPred (parseKV rest)
